@@ -293,9 +293,10 @@ theorem empty_header_kept (n rest : Bytes) (h : Dic) (hn : WFName n) (hfit : n.l
 
 /-! ## responses: what the handler produced is what `Http::request` returns -/
 
-/-- status codes for which `Http::request` returns the response it read: not the interim 100 (skipped), and not a
-redirection that the client follows by default (301, 302, 307, 308: `followRedirects`, `Location`) -/
-def ReturnedAsIs (code : Nat) : Prop := code ≠ 100 ∧ code ≠ 301 ∧ code ≠ 302 ∧ code ≠ 307 ∧ code ≠ 308
+/-- the responses `Http::request` returns as it read them: not the interim 100 (skipped), and not a redirection that the
+client follows by default — a 301, 302, 307 or 308 that names a target (`followsRedirect`; without `Location` the
+redirection itself is the result, 9644a87).  `hs` is the header dictionary the client reads. -/
+def ReturnedAsIs (code : Nat) (hs : Dic) : Prop := code ≠ 100 ∧ followsRedirect true code hs = false
 
 /-- the response as the client must see it: same status code, same protocol, same body bytes, no socket error, and the
 headers EXACTLY the dictionary that was sent (`r.headers = sent`, hence also every header retrievable under its name) -/
@@ -333,8 +334,8 @@ theorem put_dict {hs : Dic} (h : HandlerHeaders hs) (body : Bytes) (hb : body.le
 returns as is, any header dictionary, a body of any length — is returned by the client's reader exactly (status,
 protocol, the very same header dictionary, body), for every fragmentation of the stream. -/
 theorem response_roundtrip (proto : Bytes) (code : Nat) (hs : Dic) (body rest : Bytes) (cuts : List Nat)
-    (hp : IsProto proto) (hcode : code < 2147483648) (hret : ReturnedAsIs code) (hh : HandlerHeaders hs)
-    (hbody : body.length < 2147483648) :
+    (hp : IsProto proto) (hcode : code < 2147483648) (hh : HandlerHeaders hs)
+    (hret : ReturnedAsIs code (setHeader hs sContentLength (utoa body.length))) (hbody : body.length < 2147483648) :
     ∃ (r : Response) (i' : Inp),
       readResponse (Inp.ofBytes (serialize (putResponse proto code hs body) ++ rest) cuts) = (r, i') ∧
       i'.data = rest ∧ Live i' ∧
@@ -350,7 +351,8 @@ theorem response_roundtrip (proto : Bytes) (code : Nat) (hs : Dic) (body rest : 
 list of parts through `write(part)` (each cut into blocks, each block a chunk) and ends with the last chunk: the client
 returns the concatenation of the parts and the very same header dictionary, for every fragmentation. -/
 theorem stream_roundtrip (proto : Bytes) (code : Nat) (hs : Dic) (parts : List Bytes) (rest : Bytes) (cuts : List Nat)
-    (hp : IsProto proto) (hcode : code < 2147483648) (hret : ReturnedAsIs code) (hh : HandlerHeaders hs) :
+    (hp : IsProto proto) (hcode : code < 2147483648) (hh : HandlerHeaders hs)
+    (hret : ReturnedAsIs code (setHeader hs sTransferEncoding sChunked)) :
     ∃ (r : Response) (i' : Inp),
       readResponse (Inp.ofBytes (serializeStream sendBlock (statusLine proto code) (setHeader hs sTransferEncoding sChunked) parts true ++ rest) cuts)
         = (r, i') ∧
@@ -494,7 +496,7 @@ theorem exchange_roundtrip (opt : Bool) (base : Bytes) (s : Sent) (p : Plan) (b 
     (hs : WFRequest s.method s.target s.host s.port s.hs s.body) (hpath : (splitTarget s.target).1 ≠ [])
     (hnoexp : ∀ nv ∈ s.hs, capitalized nv.1 ≠ sExpect) (hopt : ¬ (s.method = sOPTIONS ∧ opt = true))
     (hk : p.kind = .bytes b) (hph : WFHeaders p.headers) (hpn : NoFraming p.headers)
-    (hb : b.length < 2147483648) (hcode : p.code < 2147483648) (hret : ReturnedAsIs p.code) :
+    (hb : b.length < 2147483648) (hcode : p.code < 2147483648) (hret : ReturnedAsIs p.code (servedHeaders s.expected p b.length)) :
     ∃ (i1 : Inp) (r : Response) (i2 : Inp),
       readRequest (Inp.ofBytes s.wire cuts1) = (s.expected, i1) ∧ i1.data = [] ∧
       (serve1 opt s.expected p [] base).called = true ∧
@@ -639,23 +641,33 @@ theorem partial_read_complete (sched : List Nat) (inc : Bytes) (size : Nat) (hs 
 
 /-! ## file ranges -/
 
-/-- **range_spec.**  `putFile(path, b, e)` on a file of `n` bytes (after the repairs 0c0d05b, 6809b13): the range is
-accepted exactly when `0 ≤ b ≤ e' < n` where `e'` is `e`, or `n-1` for the open end `e = 0`; then the announced range is
-`b-e'`, the announced length `e'-b+1`, and the bytes written are exactly bytes `b..e'` of the file (RFC 7233
-byte-range-spec).  Otherwise the range is answered as unsatisfiable (`bytes */n`). -/
-theorem range_spec (content : Bytes) (b e e' : Int) (he' : e' = if e = 0 then (content.length : Int) - 1 else e) :
-    (0 ≤ b ∧ b ≤ e' ∧ e' < content.length →
+/-- **range_spec.**  `putFile(path, b, e)` on a file of `n` bytes (after the repairs 0c0d05b, 6809b13, 37f2453): with `e'`
+the last position asked for cut to the file — `e` itself when `0 < e < n`, else `n-1` (the open end `e = 0`, and a last
+position at or past the end, RFC 7233 2.1) — the range is accepted exactly when `0 ≤ b ≤ e'` (so `b < n`); then the
+announced range is `b-e'`, the announced length `e'-b+1`, and the bytes written are exactly bytes `b..e'` of the file
+(RFC 7233 byte-range-spec).  Otherwise (`b` past the end, `e < b`, an empty file) the range is answered as unsatisfiable
+(`bytes */n`). -/
+theorem range_spec (content : Bytes) (b e e' : Int)
+    (he' : e' = if e = 0 ∨ e ≥ (content.length : Int) then (content.length : Int) - 1 else e) :
+    (0 ≤ b ∧ b ≤ e' →
+        e' < content.length ∧
         rangeOf content.length b e = some (b.toNat, e'.toNat) ∧
         fileSlice content b.toNat e'.toNat = (content.drop b.toNat).take (e'.toNat - b.toNat + 1) ∧
         (fileSlice content b.toNat e'.toNat).length = e'.toNat - b.toNat + 1 ∧
         (∀ k, k < e'.toNat - b.toNat + 1 → (fileSlice content b.toNat e'.toNat)[k]? = content[b.toNat + k]?)) ∧
-    (¬ (0 ≤ b ∧ b ≤ e' ∧ e' < content.length) → rangeOf content.length b e = none) := by
+    (¬ (0 ≤ b ∧ b ≤ e') → rangeOf content.length b e = none) := by
+  have hlt : 0 ≤ e' → e' < content.length := by
+    intro h0
+    by_cases hc : e = 0 ∨ e ≥ (content.length : Int)
+    · simp only [hc, if_true] at he'; omega
+    · simp only [hc, if_false] at he'; omega
   constructor
-  · intro ⟨h0, h1, h2⟩
+  · intro ⟨h0, h1⟩
+    have h2 : e' < content.length := hlt (by omega)
     have hr : rangeOf content.length b e = some (b.toNat, e'.toNat) := by
       unfold rangeOf
       simp only [← he']
-      have : ¬ (e' < b ∨ b < 0 ∨ e' ≥ (content.length : Int)) := by omega
+      have : ¬ (e' < b ∨ b < 0) := by omega
       simp only [this, if_false]
     have hslice : fileSlice content b.toNat e'.toNat = (content.drop b.toNat).take (e'.toNat - b.toNat + 1) := by
       unfold fileSlice
@@ -669,21 +681,113 @@ theorem range_spec (content : Bytes) (b e e' : Int) (he' : e' = if e = 0 then (c
         have hn1 : content.length = 1 := by
           have h00 : e' = 0 := by omega
           rw [h00] at he'
-          by_cases hez : e = 0
+          by_cases hez : e = 0 ∨ e ≥ (content.length : Int)
           · simp only [hez, if_true] at he'; omega
-          · simp only [hez, if_false] at he'; exact absurd he'.symm hez
+          · simp only [hez, if_false] at he'
+            exact absurd (Or.inl he'.symm) hez
         simp only [List.drop_zero, Nat.sub_self, Nat.zero_add]
         rw [← hn1, List.take_length]
-    refine ⟨hr, hslice, ?_, ?_⟩
+    refine ⟨h2, hr, hslice, ?_, ?_⟩
     · rw [hslice, List.length_take, List.length_drop]; omega
     · intro k hk
       rw [hslice, List.getElem?_take_of_lt hk, List.getElem?_drop]
   · intro h
     unfold rangeOf
     simp only [← he']
-    have : (e' < b ∨ b < 0 ∨ e' ≥ (content.length : Int)) := by omega
+    have : (e' < b ∨ b < 0) := by omega
     simp only [this, if_true]
 
+/-- a last position past the end of the file is served to the end: `Range: bytes=10-99` on 20 bytes is bytes 10-19 -/
+example : rangeOf 20 10 99 = some (10, 19) ∧ rangeOf 20 0 20 = some (0, 19) ∧ rangeOf 20 20 99 = none ∧
+    rangeOf 20 5 2147483647 = some (5, 19) ∧ rangeOf 0 0 5 = none := by decide
+
+
+/-! ## redirections: the target the client goes to
+
+`Http::request` follows a 301/302/307/308 that names a target; `Location` may be a relative reference (RFC 7231 7.1.2),
+resolved against the URL of the request (RFC 3986 5.2).  `resolveLocation` is the transcription of the repaired code
+(7920316, 7f2fd90). -/
+
+/-- the base URL of the examples of RFC 3986 5.4: `http://a/b/c/d;p?q` -/
+def rfc3986Base : Bytes := [104, 116, 116, 112, 58, 47, 47, 97, 47, 98, 47, 99, 47, 100, 59, 112, 63, 113]
+
+/-- (reference, target) for every example of RFC 3986 5.4.1 (normal) and 5.4.2 (abnormal), as byte strings -/
+def rfc3986Examples : List (Bytes × Bytes) :=
+   [([103, 58, 104], [103, 58, 104]),  -- g:h -> g:h,
+    ([103], [104, 116, 116, 112, 58, 47, 47, 97, 47, 98, 47, 99, 47, 103]),  -- g -> http://a/b/c/g,
+    ([46, 47, 103], [104, 116, 116, 112, 58, 47, 47, 97, 47, 98, 47, 99, 47, 103]),  -- ./g -> http://a/b/c/g,
+    ([103, 47], [104, 116, 116, 112, 58, 47, 47, 97, 47, 98, 47, 99, 47, 103, 47]),  -- g/ -> http://a/b/c/g/,
+    ([47, 103], [104, 116, 116, 112, 58, 47, 47, 97, 47, 103]),  -- /g -> http://a/g,
+    ([47, 47, 103], [104, 116, 116, 112, 58, 47, 47, 103]),  -- //g -> http://g,
+    ([63, 121], [104, 116, 116, 112, 58, 47, 47, 97, 47, 98, 47, 99, 47, 100, 59, 112, 63, 121]),  -- ?y -> http://a/b/c/d;p?y,
+    ([103, 63, 121], [104, 116, 116, 112, 58, 47, 47, 97, 47, 98, 47, 99, 47, 103, 63, 121]),  -- g?y -> http://a/b/c/g?y,
+    ([35, 115], [104, 116, 116, 112, 58, 47, 47, 97, 47, 98, 47, 99, 47, 100, 59, 112, 63, 113, 35, 115]),  -- #s -> http://a/b/c/d;p?q#s,
+    ([103, 35, 115], [104, 116, 116, 112, 58, 47, 47, 97, 47, 98, 47, 99, 47, 103, 35, 115]),  -- g#s -> http://a/b/c/g#s,
+    ([103, 63, 121, 35, 115], [104, 116, 116, 112, 58, 47, 47, 97, 47, 98, 47, 99, 47, 103, 63, 121, 35, 115]),  -- g?y#s -> http://a/b/c/g?y#s,
+    ([59, 120], [104, 116, 116, 112, 58, 47, 47, 97, 47, 98, 47, 99, 47, 59, 120]),  -- ;x -> http://a/b/c/;x,
+    ([103, 59, 120], [104, 116, 116, 112, 58, 47, 47, 97, 47, 98, 47, 99, 47, 103, 59, 120]),  -- g;x -> http://a/b/c/g;x,
+    ([103, 59, 120, 63, 121, 35, 115], [104, 116, 116, 112, 58, 47, 47, 97, 47, 98, 47, 99, 47, 103, 59, 120, 63, 121, 35, 115]),  -- g;x?y#s -> http://a/b/c/g;x?y#s,
+    ([], [104, 116, 116, 112, 58, 47, 47, 97, 47, 98, 47, 99, 47, 100, 59, 112, 63, 113]),  -- "" -> http://a/b/c/d;p?q,
+    ([46], [104, 116, 116, 112, 58, 47, 47, 97, 47, 98, 47, 99, 47]),  -- . -> http://a/b/c/,
+    ([46, 47], [104, 116, 116, 112, 58, 47, 47, 97, 47, 98, 47, 99, 47]),  -- ./ -> http://a/b/c/,
+    ([46, 46], [104, 116, 116, 112, 58, 47, 47, 97, 47, 98, 47]),  -- .. -> http://a/b/,
+    ([46, 46, 47], [104, 116, 116, 112, 58, 47, 47, 97, 47, 98, 47]),  -- ../ -> http://a/b/,
+    ([46, 46, 47, 103], [104, 116, 116, 112, 58, 47, 47, 97, 47, 98, 47, 103]),  -- ../g -> http://a/b/g,
+    ([46, 46, 47, 46, 46], [104, 116, 116, 112, 58, 47, 47, 97, 47]),  -- ../.. -> http://a/,
+    ([46, 46, 47, 46, 46, 47], [104, 116, 116, 112, 58, 47, 47, 97, 47]),  -- ../../ -> http://a/,
+    ([46, 46, 47, 46, 46, 47, 103], [104, 116, 116, 112, 58, 47, 47, 97, 47, 103]),  -- ../../g -> http://a/g,
+    ([46, 46, 47, 46, 46, 47, 46, 46, 47, 103], [104, 116, 116, 112, 58, 47, 47, 97, 47, 103]),  -- ../../../g -> http://a/g,
+    ([46, 46, 47, 46, 46, 47, 46, 46, 47, 46, 46, 47, 103], [104, 116, 116, 112, 58, 47, 47, 97, 47, 103]),  -- ../../../../g -> http://a/g,
+    ([47, 46, 47, 103], [104, 116, 116, 112, 58, 47, 47, 97, 47, 103]),  -- /./g -> http://a/g,
+    ([47, 46, 46, 47, 103], [104, 116, 116, 112, 58, 47, 47, 97, 47, 103]),  -- /../g -> http://a/g,
+    ([103, 46], [104, 116, 116, 112, 58, 47, 47, 97, 47, 98, 47, 99, 47, 103, 46]),  -- g. -> http://a/b/c/g.,
+    ([46, 103], [104, 116, 116, 112, 58, 47, 47, 97, 47, 98, 47, 99, 47, 46, 103]),  -- .g -> http://a/b/c/.g,
+    ([103, 46, 46], [104, 116, 116, 112, 58, 47, 47, 97, 47, 98, 47, 99, 47, 103, 46, 46]),  -- g.. -> http://a/b/c/g..,
+    ([46, 46, 103], [104, 116, 116, 112, 58, 47, 47, 97, 47, 98, 47, 99, 47, 46, 46, 103]),  -- ..g -> http://a/b/c/..g,
+    ([46, 47, 46, 46, 47, 103], [104, 116, 116, 112, 58, 47, 47, 97, 47, 98, 47, 103]),  -- ./../g -> http://a/b/g,
+    ([46, 47, 103, 47, 46], [104, 116, 116, 112, 58, 47, 47, 97, 47, 98, 47, 99, 47, 103, 47]),  -- ./g/. -> http://a/b/c/g/,
+    ([103, 47, 46, 47, 104], [104, 116, 116, 112, 58, 47, 47, 97, 47, 98, 47, 99, 47, 103, 47, 104]),  -- g/./h -> http://a/b/c/g/h,
+    ([103, 47, 46, 46, 47, 104], [104, 116, 116, 112, 58, 47, 47, 97, 47, 98, 47, 99, 47, 104]),  -- g/../h -> http://a/b/c/h,
+    ([103, 59, 120, 61, 49, 47, 46, 47, 121], [104, 116, 116, 112, 58, 47, 47, 97, 47, 98, 47, 99, 47, 103, 59, 120, 61, 49, 47, 121]),  -- g;x=1/./y -> http://a/b/c/g;x=1/y,
+    ([103, 59, 120, 61, 49, 47, 46, 46, 47, 121], [104, 116, 116, 112, 58, 47, 47, 97, 47, 98, 47, 99, 47, 121]),  -- g;x=1/../y -> http://a/b/c/y,
+    ([103, 63, 121, 47, 46, 47, 120], [104, 116, 116, 112, 58, 47, 47, 97, 47, 98, 47, 99, 47, 103, 63, 121, 47, 46, 47, 120]),  -- g?y/./x -> http://a/b/c/g?y/./x,
+    ([103, 63, 121, 47, 46, 46, 47, 120], [104, 116, 116, 112, 58, 47, 47, 97, 47, 98, 47, 99, 47, 103, 63, 121, 47, 46, 46, 47, 120]),  -- g?y/../x -> http://a/b/c/g?y/../x,
+    ([103, 35, 115, 47, 46, 47, 120], [104, 116, 116, 112, 58, 47, 47, 97, 47, 98, 47, 99, 47, 103, 35, 115, 47, 46, 47, 120]),  -- g#s/./x -> http://a/b/c/g#s/./x,
+    ([103, 35, 115, 47, 46, 46, 47, 120], [104, 116, 116, 112, 58, 47, 47, 97, 47, 98, 47, 99, 47, 103, 35, 115, 47, 46, 46, 47, 120]),  -- g#s/../x -> http://a/b/c/g#s/../x,
+    ([104, 116, 116, 112, 58, 103], [104, 116, 116, 112, 58, 103])  -- http:g -> http:g
+   ]
+
+/-- **redirect_target_rfc3986.**  The target computed for a redirection agrees with RFC 3986 on every reference resolution
+example of its section 5.4 (all 23 normal and all 19 abnormal ones: relative paths, `.` and `..` segments also beyond the
+root, absolute paths, network-path references, query-only and fragment-only references, the empty reference, references
+with a scheme). -/
+theorem redirect_target_rfc3986 :
+    rfc3986Examples.length = 42 ∧ ∀ x ∈ rfc3986Examples, resolveLocation rfc3986Base x.1 = x.2 := by
+  decide +kernel
+
+/-- **redirect_target_absolute.**  A `Location` that has a scheme (an absolute URL) is the target as it stands. -/
+theorem redirect_target_absolute (base scheme rest : Bytes) (hne : scheme ≠ []) (hs : ∀ c ∈ scheme, isSchemeChar c = true) :
+    resolveLocation base (scheme ++ 58 :: rest) = scheme ++ 58 :: rest := by
+  have htw : (scheme ++ 58 :: rest).takeWhile isSchemeChar = scheme := by
+    induction scheme with
+    | nil => rfl
+    | cons a t ih =>
+      have ha : isSchemeChar a = true := hs a List.mem_cons_self
+      by_cases ht : t = []
+      · subst ht; simp [List.takeWhile, ha]; rfl
+      · simp only [List.cons_append, List.takeWhile_cons, ha, if_true]
+        rw [ih ht (fun c hc => hs c (List.mem_cons_of_mem _ hc))]
+  have hpos : scheme.length > 0 := List.length_pos_iff.mpr hne
+  unfold resolveLocation
+  simp only [htw]
+  have hk : (scheme ++ 58 :: rest)[scheme.length]? = some 58 := by simp
+  simp [hpos]
+
+/-- **redirect_without_target_returned.**  A redirection that names no target is not followed (9644a87): whatever the
+status code, with no `Location` (or an empty one) the response is the result of the request, like any other. -/
+theorem redirect_without_target_returned (follow : Bool) (code : Nat) (h : Dic) (hl : header h sLocation = []) :
+    followsRedirect follow code h = false := by
+  unfold followsRedirect; rw [hl]; simp
 
 /-! ## the hypotheses are satisfiable (no vacuous theorem) -/
 
@@ -741,7 +845,7 @@ example : HandlerHeaders [([88, 45, 65], [118, 32, 49])] := by
   · unfold WFHeaders WFName WFValue FitsLine; decide
   · unfold NoFraming; decide
 
-example : ReturnedAsIs 404 := by unfold ReturnedAsIs; decide
+example : ReturnedAsIs 404 [] ∧ ReturnedAsIs 302 [] ∧ ¬ ReturnedAsIs 302 [(sLocation, [47, 98])] := by unfold ReturnedAsIs; decide
 
 example : rangeOf 20 5 9 = some (5, 9) := by decide
 
